@@ -232,9 +232,16 @@ def std_transfer(I, fr, t, c, pth):
             if is_iter(itv) and cl is not None:
                 items = drain(I, itv, where)
                 out = None
+                sym_alts, sym_prefix = [], []
                 for k, item in enumerate(items):
                     arg = item if name in ('all', 'any', 'position') else ('byref', item)
                     r = I._call_closure_rw(fr, cl[0], cl[1], [arg], where)
+                    if name in ('all', 'any') and isinstance(r, tuple) and len(r) == 2 and r[0] == 'bool':
+                        # an undecided per-item test: one outcome per item that can stop the scan, under the tests that select it
+                        stop = 0 if name == 'all' else 1
+                        sym_alts.append((Int(stop, 1), sym_prefix + [(r[1], stop)], []))
+                        sym_prefix = sym_prefix + [(r[1], 1 - stop)]
+                        continue
                     if not isinstance(r, Int):
                         if name == 'find':
                             # undecided predicate: the result is one of the remaining items or None
@@ -254,6 +261,8 @@ def std_transfer(I, fr, t, c, pth):
                         break
                 if out is None:
                     out = {'all': Int(1, 1), 'any': Int(0, 1)}.get(name, Opt('none', TOP))
+                if sym_alts:
+                    return I.fork_alternatives(fr, t, pth, sym_alts + [(out, sym_prefix, [])])
                 fr.storev(dest, out)
                 return True
             return False
